@@ -122,3 +122,9 @@ func VerifC10BuiltInNumFmt() map[int]string {
 // VerifC10Options returns the options the file was opened with (what
 // formattedValue hands to format).
 func (f *File) VerifC10Options() *Options { return f.options }
+
+// VerifC10BuiltInCode exposes getBuiltInNumFmtCode: the code a built-in or
+// language number format id resolves to under the file's options.
+func (f *File) VerifC10BuiltInCode(numFmtID int) (string, bool) {
+	return f.getBuiltInNumFmtCode(numFmtID)
+}
